@@ -4,8 +4,8 @@
    [quad H x] is x^T H x, [mget H a b] is H[a,b];
    [nb_ok nb]: every neighbour index is in range and the neighbour relation is symmetric (as a multiset of
    ordered pairs); [upairs nb] are the neighbouring pairs (i,k), i < k, with multiplicity. *)
-From Coq Require Import ZArith List Bool Reals Lra.
-From PAV Require Import Base.Res Base.NumOps Base.Sum Model.C07 Proofs.C07 Proofs.C07Rect Proofs.C07Asm.
+From Coq Require Import ZArith List Bool Reals Lra Lia.
+From PAV Require Import Base.Res Base.NumOps Base.Sum Model.C07 Model.C07Split Proofs.C07 Proofs.C07Rect Proofs.C07Asm Proofs.C07Del Proofs.C07Ker Proofs.C07Sig Proofs.C07Term Proofs.C07Split.
 Import ListNotations.
 Local Open Scope R_scope.
 
@@ -274,6 +274,146 @@ Theorem C07_kernel_scheme_spd_partial : forall (eps : R) (kern : R -> R) (pts : 
   /\ forall x, length x = length pts -> (exists i, nth i x 0 <> 0) -> 0 < @quad ROps (@scale_matrix ROps coef K) x.
 Proof. exact T_kernel_partial. Qed.
 
+(* ---------------- Delaunay meshes (phase 3; proofs in Proofs/C07Del.v) ----------------
+   Mesh2DDelaunay.neighbors reads scipy's Delaunay.vertex_neighbor_vertices = (indptr, indices).  [vnv_ok n S indptr indices] is
+   scipy's documented contract for n points with simplices S: slice k of indices lists, once each, exactly the vertices that share
+   a simplex with k.  Under it the rows [del_rows] the loop copies are the edge relation of the triangulation: one row per vertex,
+   in range and symmetric ([nb_ok]) whatever the degree of a vertex; the padded array [del_neighbors] (width = the largest degree)
+   gives these rows back through its first sizes[k] entries.  Hence the neighbour-difference schemes are symmetric positive
+   definite with the stated quadratic form on every Delaunay mesh. *)
+Theorem C07_delaunay_neighbors : forall n S indptr indices, vnv_ok n S indptr indices = true ->
+  length (del_rows n indptr indices) = n /\ nb_ok (del_rows n indptr indices) = true
+  /\ (forall i j, (i < n)%nat -> (In j (nth i (del_rows n indptr indices) []) <-> adjb S i j = true))
+  /\ Forall (@NoDup nat) (del_rows n indptr indices).
+Proof. exact T_delaunay_neighbors. Qed.
+Theorem C07_delaunay_neighbors_array : forall n S indptr indices, vnv_ok n S indptr indices = true ->
+  used_rows (fst (del_neighbors n indptr indices)) (snd (del_neighbors n indptr indices)) = del_rows n indptr indices
+  /\ length (snd (del_neighbors n indptr indices)) = n
+  /\ Forall (fun r => length r = fold_right Nat.max 0%nat (snd (del_neighbors n indptr indices))) (fst (del_neighbors n indptr indices)).
+Proof. exact T_delaunay_decode. Qed.
+Theorem C07_delaunay_mesh_constant : forall n S indptr indices (eps c : R), vnv_ok n S indptr indices = true ->
+  (forall a b, (a < n)%nat -> (b < n)%nat ->
+     @mget ROps (@constant_matrix ROps eps c (del_rows n indptr indices)) a b = @mget ROps (@constant_matrix ROps eps c (del_rows n indptr indices)) b a)
+  /\ (forall x : list R, length x = n ->
+        @quad ROps (@constant_matrix ROps eps c (del_rows n indptr indices)) x = @qf_constant ROps eps c (del_rows n indptr indices) x)
+  /\ (0 < eps -> forall x : list R, length x = n -> (exists i, nth i x 0 <> 0) ->
+        0 < @quad ROps (@constant_matrix ROps eps c (del_rows n indptr indices)) x).
+Proof. exact T_delaunay_constant. Qed.
+Theorem C07_delaunay_mesh_adaptive : forall n S indptr indices (eps : R) (w : list R), vnv_ok n S indptr indices = true -> length w = n ->
+  (forall a b, (a < n)%nat -> (b < n)%nat ->
+     @mget ROps (@weighted_matrix ROps eps w (del_rows n indptr indices)) a b = @mget ROps (@weighted_matrix ROps eps w (del_rows n indptr indices)) b a)
+  /\ (forall x : list R, length x = n ->
+        @quad ROps (@weighted_matrix ROps eps w (del_rows n indptr indices)) x = @qf_weighted ROps eps w (del_rows n indptr indices) x)
+  /\ (0 < eps -> forall x : list R, length x = n -> (exists i, nth i x 0 <> 0) ->
+        0 < @quad ROps (@weighted_matrix ROps eps w (del_rows n indptr indices)) x).
+Proof. exact T_delaunay_weighted. Qed.
+
+(* ---------------- pixel signals and the weights made from them (phase 3; proofs in Proofs/C07Sig.v) ----------------
+   mapper_util.adaptive_pixel_signals_from is now part of the model ([pixel_signals]; [pw] is x |-> x ** signal_scale).
+   For every table of rows with distinct in-range vertices (what the mappers produce: [raw_row_ok]) the routine raises nothing and
+   returns [spec_signals]: per pixel the sum of (data value x interpolation weight) over the data sub-pixels mapped to it, divided by
+   their number (1 if none), divided by the maximum, to the power. *)
+Theorem C07_pixel_signals_model_is_spec : forall (pw : R -> R) pixels (rows : list (@sig_row ROps)) (adapt : list R),
+  forallb (raw_row_ok pixels (length adapt)) rows = true -> (0 < pixels)%nat ->
+  @list_max ROps (map (@raw_signal ROps (map (prow_of adapt) rows)) (seq 0 pixels)) <> 0 ->
+  @pixel_signals ROps pw pixels rows adapt = Ok (@spec_signals ROps pw pixels (map (prow_of adapt) rows)).
+Proof. exact T_pixel_signals. Qed.
+(* after the normalisation the signals lie in [0, 1] and the brightest pixel has signal exactly 1 (non-negative adapt image and
+   interpolation weights, a positive maximum; every power function mapping [0,1] into itself and fixing 1) *)
+Theorem C07_pixel_signals_unit_interval : forall (pw : R -> R) pixels (prs : list (list nat * list R)),
+  ((forall x, 0 <= x <= 1 -> 0 <= pw x <= 1) /\ pw 1 = 1) -> (0 < pixels)%nat -> Forall (fun pr => Forall (fun v => 0 <= v) (snd pr)) prs ->
+  0 < @list_max ROps (map (@raw_signal ROps prs) (seq 0 pixels)) ->
+  length (@spec_signals ROps pw pixels prs) = pixels
+  /\ Forall (fun s => 0 <= s <= 1) (@spec_signals ROps pw pixels prs) /\ In 1 (@spec_signals ROps pw pixels prs).
+Proof. exact T_spec_signals_unit. Qed.
+Theorem C07_integer_powers_are_unit_powers : forall n, (forall x, 0 <= x <= 1 -> 0 <= @npow ROps n x <= 1) /\ @npow ROps n 1 = 1.
+Proof. exact npow_unit. Qed.
+(* what the weight formula gives on such signals: between min(inner, outer)^2 and max(inner, outer)^2; inner^2 at the brightest
+   pixel, outer^2 where the signal vanishes *)
+Theorem C07_adaptive_weights_on_unit_signals : forall (inner outer : R) (s : list R), 0 <= inner -> 0 <= outer -> Forall (fun v => 0 <= v <= 1) s ->
+  forall i, (i < length s)%nat ->
+    Rmin inner outer * Rmin inner outer <= nth i (@adaptive_weights ROps inner outer s) 0 <= Rmax inner outer * Rmax inner outer
+    /\ (nth i s 0 = 1 -> nth i (@adaptive_weights ROps inner outer s) 0 = inner * inner)
+    /\ (nth i s 0 = 0 -> nth i (@adaptive_weights ROps inner outer s) 0 = outer * outer).
+Proof. exact T_adaptive_weights_on_signals. Qed.
+
+(* ---------------- kernel schemes without Bochner (phase 3; proofs in Proofs/C07Ker.v) ----------------
+   [kern_gauss s d2] = exp(-sqrt(d2)^2 / (2 s^2)), [kern_exp s d2] = exp(-sqrt(d2) / s) are the two profiles as the code evaluates them. *)
+Theorem C07_covariance_entries : forall (eps : R) (kern : R -> R) (pts : list (R * R)) a b, (a < length pts)%nat -> (b < length pts)%nat ->
+  @mget ROps (@cov_matrix ROps eps kern pts) a b
+  = (if Nat.eqb a b then eps else 0) + kern (@dist2 ROps (nth a pts (0, 0)) (nth b pts (0, 0))).
+Proof. exact T_cov_entry. Qed.
+Theorem C07_covariance_diagonal_one_plus_ridge : forall (eps s : R) (pts : list (R * R)) a, (a < length pts)%nat ->
+  @mget ROps (@cov_matrix ROps eps (kern_gauss s) pts) a a = 1 + eps /\ @mget ROps (@cov_matrix ROps eps (kern_exp s) pts) a a = 1 + eps.
+Proof. exact (fun eps s pts a Ha => conj (T_cov_diagonal_gauss eps s pts a Ha) (T_cov_diagonal_exp eps s pts a Ha)). Qed.
+Theorem C07_kernel_profiles_in_unit_interval : forall s d2, 0 < s -> 0 < kern_gauss s d2 <= 1 /\ 0 < kern_exp s d2 <= 1.
+Proof. exact (fun s d2 Hs => conj (kern_gauss_range s d2 Hs) (kern_exp_range s d2 Hs)). Qed.
+(* two points (distinct or not): the covariance matrix of BOTH kernels is positive definite *)
+Theorem C07_covariance_pd_two_points : forall (eps s : R) (p q : R * R), 0 < eps -> 0 < s ->
+  forall x, length x = 2%nat -> (exists i, nth i x 0 <> 0) ->
+    0 < @quad ROps (@cov_matrix ROps eps (kern_gauss s) [p; q]) x /\ 0 < @quad ROps (@cov_matrix ROps eps (kern_exp s) [p; q]) x.
+Proof. exact (fun eps s p q He Hs x Hx Hn => conj (T_cov_pd_2_gauss eps s p q He Hs x Hx Hn) (T_cov_pd_2_exp eps s p q He Hs x Hx Hn)). Qed.
+(* three points, exponential kernel: positive definite, by the determinant 1 + 2abc - a^2 - b^2 - c^2 >= 0 that the triangle
+   inequality of the Euclidean distance gives *)
+Theorem C07_covariance_pd_three_points_exponential : forall (eps s : R) (p0 p1 p2 : R * R), 0 < eps -> 0 < s ->
+  forall x, length x = 3%nat -> (exists i, nth i x 0 <> 0) -> 0 < @quad ROps (@cov_matrix ROps eps (kern_exp s) [p0; p1; p2]) x.
+Proof. exact T_cov_pd_3_exp. Qed.
+(* hence, there, the scheme matrix coefficient * inverse(covariance) is symmetric positive definite with NO hypothesis on the covariance
+   (numpy.linalg.inv enters through its contract C (K x) = x) *)
+Theorem C07_kernel_scheme_spd_two_points : forall (eps s : R) (p q : R * R) (K : list (list R)) (coef : R), 0 < eps -> 0 < s ->
+  (length K = 2%nat /\ Forall (fun r => length r = 2%nat) K) -> 0 < coef ->
+  ((forall x, length x = 2%nat -> @mat_vec ROps (@cov_matrix ROps eps (kern_gauss s) [p; q]) (@mat_vec ROps K x) = x) ->
+     (forall a b, (a < 2)%nat -> (b < 2)%nat -> @mget ROps (@scale_matrix ROps coef K) a b = @mget ROps (@scale_matrix ROps coef K) b a)
+     /\ forall x, length x = 2%nat -> (exists i, nth i x 0 <> 0) -> 0 < @quad ROps (@scale_matrix ROps coef K) x)
+  /\ ((forall x, length x = 2%nat -> @mat_vec ROps (@cov_matrix ROps eps (kern_exp s) [p; q]) (@mat_vec ROps K x) = x) ->
+     (forall a b, (a < 2)%nat -> (b < 2)%nat -> @mget ROps (@scale_matrix ROps coef K) a b = @mget ROps (@scale_matrix ROps coef K) b a)
+     /\ forall x, length x = 2%nat -> (exists i, nth i x 0 <> 0) -> 0 < @quad ROps (@scale_matrix ROps coef K) x).
+Proof. exact T_kernel_spd_2_both. Qed.
+Theorem C07_kernel_scheme_spd_three_points_exponential : forall (eps s : R) (p0 p1 p2 : R * R) (K : list (list R)) (coef : R),
+  0 < eps -> 0 < s -> (length K = 3%nat /\ Forall (fun r => length r = 3%nat) K) ->
+  (forall x, length x = 3%nat -> @mat_vec ROps (@cov_matrix ROps eps (kern_exp s) [p0; p1; p2]) (@mat_vec ROps K x) = x) -> 0 < coef ->
+  (forall a b, (a < 3)%nat -> (b < 3)%nat -> @mget ROps (@scale_matrix ROps coef K) a b = @mget ROps (@scale_matrix ROps coef K) b a)
+  /\ forall x, length x = 3%nat -> (exists i, nth i x 0 <> 0) -> 0 < @quad ROps (@scale_matrix ROps coef K) x.
+Proof. exact T_kernel_spd_3_exp. Qed.
+
+(* ---------------- split schemes on every Delaunay mesh (phase 3; proofs in Proofs/C07Split.v) ----------------
+   [split_table] is MapperDelaunay.pix_sub_weights_split_cross written with the routines property C06 models (C06.del_mappings /
+   C06.del_weights on the 4 cross points of every vertex, a column -1 / 0.0 appended).  Under scipy's contract (every simplex has
+   three distinct in-range vertices, find_simplex returns -1 or a simplex index) the table meets the hypothesis [split_rows_ok 4]
+   of C07_split_cross_pipeline, which is thereby discharged for Delaunay meshes. *)
+Theorem C07_delaunay_split_table_ok : forall (cross_pts points : list (R * R)) simplex_for simplices, points <> [] ->
+  length cross_pts = (4 * length points)%nat -> length simplex_for = length cross_pts ->
+  (forall row, In row simplices -> exists a b c, row = [a; b; c] /\ (0 <= a < Z.of_nat (length points))%Z /\ (0 <= b < Z.of_nat (length points))%Z
+                                                 /\ (0 <= c < Z.of_nat (length points))%Z /\ a <> b /\ a <> c /\ b <> c) ->
+  (forall t, In t simplex_for -> t = (-1)%Z \/ (0 <= t < Z.of_nat (length simplices))%Z) ->
+  split_rows_ok 4 (@split_table ROps cross_pts simplex_for simplices points) = true
+  /\ length (@split_table ROps cross_pts simplex_for simplices points) = (4 * length points)%nat.
+Proof. exact T_delaunay_split_rows_ok. Qed.
+Theorem C07_delaunay_mesh_split_schemes : forall (eps : R) (w : list R) (cross_pts points : list (R * R)) simplex_for simplices, points <> [] ->
+  length cross_pts = (4 * length points)%nat -> length simplex_for = length cross_pts ->
+  (forall row, In row simplices -> exists a b c, row = [a; b; c] /\ (0 <= a < Z.of_nat (length points))%Z /\ (0 <= b < Z.of_nat (length points))%Z
+                                                 /\ (0 <= c < Z.of_nat (length points))%Z /\ a <> b /\ a <> c /\ b <> c) ->
+  (forall t, In t simplex_for -> t = (-1)%Z \/ (0 <= t < Z.of_nat (length simplices))%Z) ->
+  exists rows' H, @reg_split ROps 4 (@split_table ROps cross_pts simplex_for simplices points) = Ok rows' /\ @split_matrix ROps eps w rows' = Ok H
+    /\ (length H = length points /\ Forall (fun r => length r = length points) H)
+    /\ (forall a b, (a < length points)%nat -> (b < length points)%nat -> @mget ROps H a b = @mget ROps H b a)
+    /\ (forall x, length x = length points ->
+          @quad ROps H x = @qf_split ROps eps w (map prow0 (@split_table ROps cross_pts simplex_for simplices points)) x)
+    /\ (0 < eps -> forall x, length x = length points -> (exists i, nth i x 0 <> 0) -> 0 < @quad ROps H x).
+Proof. exact T_delaunay_split_schemes. Qed.
+
+(* ---------------- inversion.regularization_term (phase 3; proof in Proofs/C07Term.v) ----------------
+   s_r^T H_r s_r with s_r = reconstruction_reduced, H_r = regularization_matrix_reduced is the sum over the REGULARIZED objects, in
+   list order, of the quadratic forms of the objects' own matrices on their slices of the reconstruction *)
+Theorem C07_regularization_term : forall (objs : list (nat * option (list (list R)))) (x : list R),
+  Forall (fun o => match snd o with Some H => length H = fst o /\ Forall (fun r => length r = fst o) H | None => True end) objs ->
+  length x = totalp objs -> @reg_term ROps objs x = @term_blocks ROps objs x.
+Proof. exact T_reg_term. Qed.
+Theorem C07_regularization_term_nonneg : forall (objs : list (nat * option (list (list R)))),
+  Forall (fun o => match snd o with Some H => forall y, 0 <= @quad ROps H y | None => True end) objs ->
+  forall x, 0 <= @term_blocks ROps objs x.
+Proof. exact term_blocks_nonneg. Qed.
+
 (* ---------------- non-vacuity ---------------- *)
 (* a 2x3 rectangular mesh: neighbour lists as rectangular_neighbors_from returns them *)
 Example C07_nb_ok_rect23 : nb_ok [[1; 3]; [0; 2; 4]; [1; 5]; [0; 4]; [1; 3; 5]; [2; 4]]%nat = true.
@@ -329,6 +469,48 @@ Qed.
 Example C07_nonzero_vector : exists i, nth i [0; 0; 1; 0; 0; 0] 0 <> 0.
 Proof. exists 2%nat. cbn. apply R1_neq_R0. Qed.
 
+(* phase 3 hypotheses are satisfiable *)
+(* scipy's contract on a square cut into two triangles: (indptr, indices) of vertex_neighbor_vertices *)
+Example C07_vnv_ok_square : vnv_ok 4 [[0; 1; 2]; [0; 2; 3]]%nat [0; 3; 5; 8; 10]%nat [1; 2; 3; 0; 2; 0; 1; 3; 0; 2]%nat = true.
+Proof. vm_compute. reflexivity. Qed.
+(* a hub with five spokes: degree 5 at vertex 0 *)
+Example C07_vnv_ok_hub : vnv_ok 6 [[0; 1; 2]; [0; 2; 3]; [0; 3; 4]; [0; 4; 5]; [0; 5; 1]]%nat [0; 5; 8; 11; 14; 17; 20]%nat
+  [1; 2; 3; 4; 5; 0; 2; 5; 0; 1; 3; 0; 2; 4; 0; 3; 5; 0; 4; 1]%nat = true.
+Proof. vm_compute. reflexivity. Qed.
+(* pixel signals: two pixels, an interpolated row and a single-vertex row; data values 2 and 1 *)
+Example C07_pixel_signals_hypotheses :
+  let rows : list (@sig_row ROps) := [([0; 1]%Z, 2%nat, [/2; /2], 0%nat); ([1; -1]%Z, 1%nat, [1; 0], 1%nat)] in
+  let adapt := [2; 1] in
+  forallb (raw_row_ok 2 (length adapt)) rows = true /\ (0 < 2)%nat
+  /\ @list_max ROps (map (@raw_signal ROps (map (prow_of adapt) rows)) (seq 0 2)) <> 0
+  /\ Forall (fun pr : list nat * list R => Forall (fun v => 0 <= v) (snd pr)) (map (prow_of adapt) rows)
+  /\ 0 < @list_max ROps (map (@raw_signal ROps (map (prow_of adapt) rows)) (seq 0 2)).
+Proof.
+  cbv zeta.
+  assert (E : @list_max ROps (map (@raw_signal ROps (map (prow_of [2; 1]) [([0; 1]%Z, 2%nat, [/2; /2], 0%nat); ([1; -1]%Z, 1%nat, [1; 0], 1%nat)])) (seq 0 2)) = 1).
+  { cbv -[Rplus Rmult Rinv Rltb Rdiv IZR Rminus Ropp Reqb].
+    replace ((0 + (0 + 2 * / 2) + 0) / 1) with 1 by field. replace ((0 + (0 + 2 * / 2) + (0 + 1)) / 2) with 1 by field.
+    destruct (Rltb 1 1) eqn:X; reflexivity. }
+  split; [vm_compute; reflexivity|]. split; [repeat constructor|]. rewrite E. split; [lra|]. split; [|lra].
+  cbv -[Rplus Rmult Rinv Rltb Rdiv IZR Rminus Ropp Reqb Rle]. repeat constructor; lra.
+Qed.
+(* two distinct points for the two-point kernel theorems; three for the exponential one *)
+Example C07_kernel_small_hypotheses : (0 < / 100000000) /\ (0 < 3 / 2) /\ length [1; -1] = 2%nat /\ (exists i, nth i [1; -1] 0 <> 0).
+Proof. split; [lra|]. split; [lra|]. split; [reflexivity|]. exists 0%nat. cbn. lra. Qed.
+(* one triangle with its 12 cross points (find_simplex: 0 inside, -1 outside) *)
+Example C07_split_table_hypotheses :
+  let points := [(0, 0); (0, 4); (4, 0)] in let simplices := [[0; 1; 2]%Z] in
+  let simplex_for := [0; -1; 0; -1; 0; -1; -1; -1; -1; -1; -1; -1]%Z in
+  points <> [] /\ length (repeat (1, 1) 12) = (4 * length points)%nat /\ length simplex_for = length (repeat (1, 1) 12)
+  /\ (forall row, In row simplices -> exists a b c, row = [a; b; c] /\ (0 <= a < Z.of_nat (length points))%Z /\ (0 <= b < Z.of_nat (length points))%Z
+                                                 /\ (0 <= c < Z.of_nat (length points))%Z /\ a <> b /\ a <> c /\ b <> c)
+  /\ (forall t, In t simplex_for -> t = (-1)%Z \/ (0 <= t < Z.of_nat (length simplices))%Z).
+Proof.
+  cbv zeta. split; [discriminate|]. split; [reflexivity|]. split; [reflexivity|]. split.
+  - intros row [<-|[]]. exists 0%Z, 1%Z, 2%Z. cbn. repeat split; try reflexivity; try discriminate; lia.
+  - intros t Ht. cbn in Ht. repeat (destruct Ht as [<-|Ht]; [try (left; reflexivity); right; cbn; lia|]). destruct Ht.
+Qed.
+
 Print Assumptions C07_constant_quadratic_form.
 Print Assumptions C07_qf_constant_meaning.
 Print Assumptions C07_constant_size.
@@ -375,3 +557,22 @@ Print Assumptions C07_assembly_psd.
 Print Assumptions C07_assembly_positive_definite.
 Print Assumptions C07_reduced_positive_definite.
 Print Assumptions C07_inversion_matrices_symmetric.
+Print Assumptions C07_delaunay_neighbors.
+Print Assumptions C07_delaunay_neighbors_array.
+Print Assumptions C07_delaunay_mesh_constant.
+Print Assumptions C07_delaunay_mesh_adaptive.
+Print Assumptions C07_pixel_signals_model_is_spec.
+Print Assumptions C07_pixel_signals_unit_interval.
+Print Assumptions C07_integer_powers_are_unit_powers.
+Print Assumptions C07_adaptive_weights_on_unit_signals.
+Print Assumptions C07_covariance_entries.
+Print Assumptions C07_covariance_diagonal_one_plus_ridge.
+Print Assumptions C07_kernel_profiles_in_unit_interval.
+Print Assumptions C07_covariance_pd_two_points.
+Print Assumptions C07_covariance_pd_three_points_exponential.
+Print Assumptions C07_kernel_scheme_spd_two_points.
+Print Assumptions C07_kernel_scheme_spd_three_points_exponential.
+Print Assumptions C07_delaunay_split_table_ok.
+Print Assumptions C07_delaunay_mesh_split_schemes.
+Print Assumptions C07_regularization_term.
+Print Assumptions C07_regularization_term_nonneg.
